@@ -17,6 +17,7 @@ import (
 	"strings"
 
 	"github.com/prometheus/common/model"
+	"github.com/prometheus/prometheus/model/labels"
 	"github.com/prometheus/prometheus/promql"
 	promParser "github.com/prometheus/prometheus/promql/parser"
 
@@ -563,8 +564,8 @@ func (pr *pqRunner) oracleC12(base pqCase, expr string, nodes []promParser.Node,
 					known = "C12-bool-K1"
 				case classK6(expr, n):
 					known = "C12-static-value-K6"
-				case pr.k3Node(expr, n):
-					known = "C12-must-have-K3"
+				case pr.joinClassNode(expr, n) != "":
+					known = pr.joinClassNode(expr, n)
 				case classK2(expr, n):
 					known = "C12-or-K2"
 				case classK7(n):
@@ -615,7 +616,7 @@ func (pr *pqRunner) oracleC12(base pqCase, expr string, nodes []promParser.Node,
 		}
 		allFlagged := true
 		anyFlagged := false
-		k3 := false
+		jclass := ""
 		for _, s := range srcs {
 			own := s.Joins
 			if b.Op == promParser.LUNLESS {
@@ -632,8 +633,8 @@ func (pr *pqRunner) oracleC12(base pqCase, expr string, nodes []promParser.Node,
 				}
 				if l, ok := deadLabel(j.Src); ok {
 					anyFlagged = true
-					if k3Label(b, many, l) {
-						k3 = true
+					if c := joinClass(b, many, l); c != "" {
+						jclass = c
 					}
 				} else {
 					// dead for another reason (inherited from below): not a verdict of this node
@@ -657,10 +658,12 @@ func (pr *pqRunner) oracleC12(base pqCase, expr string, nodes []promParser.Node,
 		if bad {
 			known := ""
 			switch {
-			case k3:
-				known = "C12-must-have-K3"
-			case pr.k3Node(expr, b.LHS) || pr.k3Node(expr, b.RHS):
-				known = "C12-must-have-K3"
+			case jclass != "":
+				known = jclass
+			case pr.joinClassNode(expr, b.LHS) != "":
+				known = pr.joinClassNode(expr, b.LHS)
+			case pr.joinClassNode(expr, b.RHS) != "":
+				known = pr.joinClassNode(expr, b.RHS)
 			}
 			pr.failure(id, fmt.Sprintf("C12: every join of `%s` is reported as never matching but the operation returns %d series (operand contributes)",
 				n.String(), len(res.Series)), c, known)
@@ -668,26 +671,40 @@ func (pr *pqRunner) oracleC12(base pqCase, expr string, nodes []promParser.Node,
 	}
 }
 
-// mentionsLabel: `l` occurs syntactically in `node` as a matcher name, a by/without label, an on/ignoring/group_x
-// label, the destination of label_replace/label_join or the label of count_values.
-func mentionsLabel(node promParser.Node, l string) bool {
-	return anyNode(node, func(n promParser.Node) bool {
-		switch x := n.(type) {
-		case *promParser.VectorSelector:
-			for _, m := range x.LabelMatchers {
-				if m.Name == l {
+// k3Mechanism: one of the mechanisms of known finding K3 can explain why the analyser believes the driving side
+// `many` of operation `b` may carry label `l` although it need not:
+//
+//	M1 includeLabel of on(...) / group_x(...) labels: `l` is an on() label of `b` itself or an on()/group_x() label of a
+//	   vector/vector operation inside `many`;
+//	M2 functions re-guarantee the labels of their innermost selector: a call inside `many` with a positive matcher on `l`
+//	   below it;
+//	M3 label_replace/label_join guarantee their destination even when the replacement is empty;
+//	M4 count_values guarantees its label.
+//
+// A join verdict on a label none of them explains (a label left in GuaranteedLabels/IncludedLabels by anything else)
+// is outside the class.
+func k3Mechanism(b *promParser.BinaryExpr, many promParser.Node, l string) bool {
+	if b.VectorMatching != nil && b.VectorMatching.On && contains(b.VectorMatching.MatchingLabels, l) {
+		return true
+	}
+	posMatcher := func(n promParser.Node) bool {
+		return anyNode(n, func(m promParser.Node) bool {
+			vs, ok := m.(*promParser.VectorSelector)
+			if !ok {
+				return false
+			}
+			for _, lm := range vs.LabelMatchers {
+				if lm.Name == l && (lm.Type == labels.MatchEqual || lm.Type == labels.MatchRegexp) {
 					return true
 				}
 			}
-		case *promParser.AggregateExpr:
-			if contains(x.Grouping, l) {
-				return true
-			}
-			if p, ok := x.Param.(*promParser.StringLiteral); ok && x.Op == promParser.COUNT_VALUES && p.Val == l {
-				return true
-			}
+			return false
+		})
+	}
+	return anyNode(many, func(n promParser.Node) bool {
+		switch x := n.(type) {
 		case *promParser.BinaryExpr:
-			if x.VectorMatching != nil && (contains(x.VectorMatching.MatchingLabels, l) || contains(x.VectorMatching.Include, l)) {
+			if x.VectorMatching != nil && ((x.VectorMatching.On && contains(x.VectorMatching.MatchingLabels, l)) || contains(x.VectorMatching.Include, l)) {
 				return true
 			}
 		case *promParser.Call:
@@ -696,23 +713,85 @@ func mentionsLabel(node promParser.Node, l string) bool {
 					return true
 				}
 			}
+			switch x.Func.Name {
+			case "vector", "scalar", "absent", "absent_over_time", "label_replace", "label_join", "sort", "sort_desc", "time", "pi":
+			default:
+				return posMatcher(x)
+			}
+		case *promParser.AggregateExpr:
+			if p, ok := x.Param.(*promParser.StringLiteral); ok && x.Op == promParser.COUNT_VALUES && p.Val == l {
+				return true
+			}
 		}
 		return false
 	})
 }
 
 // k3Label: the class predicate of known finding K3 for one join verdict of operation `b` on label `l`: the "many"
-// side is not guaranteed to carry `l` (complement of the guard of C12_join_partial) AND `l` is a real label name
-// written somewhere in the operation (the mechanisms of K3 -- on()/group_x labels included, selector labels
-// re-guaranteed -- only ever introduce labels of the query text; a verdict naming any other label, e.g. the empty
-// name left behind by an in-place slice deletion, is outside the class).
+// side is not guaranteed to carry `l` (complement of the guard of C12_join_partial) AND one of the K3 mechanisms
+// accounts for the analyser's belief that it may.
 func k3Label(b *promParser.BinaryExpr, many promParser.Node, l string) bool {
-	return l != "" && !mustHave(many, l) && mentionsLabel(b, l)
+	return l != "" && !mustHave(many, l) && k3Mechanism(b, many, l)
 }
 
-// k3Node: some join verdict inside `node` rests on a label the "many" side is not guaranteed to carry.
-func (pr *pqRunner) k3Node(expr string, node promParser.Node) bool {
-	return anyNode(node, func(n promParser.Node) bool {
+// k10Label: known finding K10 for a join verdict on label `l`: the driving side contains absent()/absent_over_time()
+// whose innermost selector has an equality matcher on `l` that the engine does NOT turn into a label of the result:
+// the argument is not a plain (matrix) selector, the matcher value is empty, or the name is matched twice.  The
+// analyser includes and guarantees every equality-matched name of `s.Selector` regardless.
+func k10Label(many promParser.Node, l string) bool {
+	if l == "" || mustHave(many, l) {
+		return false
+	}
+	return anyNode(many, func(n promParser.Node) bool {
+		c, ok := n.(*promParser.Call)
+		if !ok || (c.Func.Name != "absent" && c.Func.Name != "absent_over_time") || len(c.Args) != 1 {
+			return false
+		}
+		var plain *promParser.VectorSelector
+		switch a := c.Args[0].(type) {
+		case *promParser.VectorSelector:
+			plain = a
+		case *promParser.MatrixSelector:
+			plain, _ = a.VectorSelector.(*promParser.VectorSelector)
+		}
+		return anyNode(c.Args[0], func(m promParser.Node) bool {
+			vs, ok := m.(*promParser.VectorSelector)
+			if !ok {
+				return false
+			}
+			cnt, empty, eq := 0, false, false
+			for _, lm := range vs.LabelMatchers {
+				if lm.Name == l {
+					cnt++
+					if lm.Type == labels.MatchEqual {
+						eq = true
+						if lm.Value == "" {
+							empty = true
+						}
+					}
+				}
+			}
+			return eq && (vs != plain || empty || cnt > 1)
+		})
+	})
+}
+
+// joinClass: the known-finding class (or "") of one join verdict of operation `b` on label `l`.
+func joinClass(b *promParser.BinaryExpr, many promParser.Node, l string) string {
+	switch {
+	case k3Label(b, many, l):
+		return "C12-must-have-K3"
+	case k10Label(many, l):
+		return "C12-absent-labels-K10"
+	}
+	return ""
+}
+
+// joinClassNode: some join verdict inside `node` falls into a known class (K3: it rests on a label the "many" side is
+// not guaranteed to carry and a K3 mechanism explains the belief; K10: absent() labels).
+func (pr *pqRunner) joinClassNode(expr string, node promParser.Node) string {
+	found := ""
+	anyNode(node, func(n promParser.Node) bool {
 		b, ok := n.(*promParser.BinaryExpr)
 		if !ok || b.VectorMatching == nil || b.Op == promParser.LOR {
 			return false
@@ -732,13 +811,17 @@ func (pr *pqRunner) k3Node(expr string, node promParser.Node) bool {
 				continue
 			}
 			for _, j := range own[len(own)-k:] {
-				if l, ok := deadLabel(j.Src); ok && k3Label(b, many, l) {
-					return true
+				if l, ok := deadLabel(j.Src); ok {
+					if c := joinClass(b, many, l); c != "" {
+						found = c
+						return true
+					}
 				}
 			}
 		}
 		return false
 	})
+	return found
 }
 
 func countDead(srcs []utils.Source) int {
